@@ -87,7 +87,7 @@ def run(tier, seed, replay=None):
             f = byid.get(ev.get("file"), {})
             has_float = bool(f.get("float"))
             if ev["e"] == "end":
-                sig = {"kind": "end", "float_in_module_aux": has_float, "version_lt5": f.get("version", 9) < 5, "footer_ok": ev.get("footer_ok"), "chunks_ok": ev.get("chunks_ok")}
+                sig = {"kind": "end", "float_in_module_aux": has_float, "version_lt5": f.get("version", 9) < 5, "footer_ok": ev.get("footer_ok"), "chunks_ok": ev.get("chunks_ok"), "held_ok": ev.get("held_ok")}
             else:
                 sig = {"kind": "rec", "float_in_module_aux": has_float, "payload_ok": ev.get("payload_ok"), "type_ok": ev.get("type_ok"), "key_ok": ev.get("key_ok"), "part": ev.get("part")}
             verdict.violation(sig, "file %s (format version %s, ops %s): %s" % (ev.get("file"), f.get("version"), [(o["o"], o.get("v")) for o in f.get("ops", [])], {k: v for k, v in ev.items() if k != "seq"}),
